@@ -5,6 +5,7 @@
  *   --prop C12  in-place add
  */
 #include "vh.h"
+#include <sys/mman.h>
 
 #include "varint.h"
 #include "varintChained.h"
@@ -64,6 +65,12 @@ static int ref_encode(int fam, uint64_t v, uint8_t *o) {
     return 0;
 }
 
+/* value operands of the macro forms: an operand expression is evaluated once by the unchanged library for the tagged
+ * and split macros (as by the functions they replace), so the harness passes an expression whose value differs on a
+ * second evaluation; a macro that evaluates it twice then encodes a mixture, which the byte / round-trip oracles see */
+static int g_nev;
+static inline uint64_t ev_once(uint64_t v) { return ++g_nev == 1 ? v : (v ^ (0x0101010101010101ULL * (uint64_t)g_nev)) + 0x9e37ULL; }
+
 /* core put / get / len / getlen (function forms and macro forms of the split families) */
 static int fam_put(int fam, uint8_t *p, uint64_t v) {
     int len = 0;
@@ -79,16 +86,20 @@ static int fam_put(int fam, uint8_t *p, uint64_t v) {
     case F_CSIMPLE:
         return (int)varintChainedSimpleEncode64(p, v);
     case F_SPLIT:
-        varintSplitPut_(p, len, v);
+        g_nev = 0;
+        varintSplitPut_(p, len, ev_once(v));
         return len;
     case F_SPLITFULL:
-        varintSplitFullPut_(p, len, v);
+        g_nev = 0;
+        varintSplitFullPut_(p, len, ev_once(v));
         return len;
     case F_SPLITNZ:
-        varintSplitFullNoZeroPut_(p, len, v);
+        g_nev = 0;
+        varintSplitFullNoZeroPut_(p, len, ev_once(v));
         return len;
     case F_SPLIT16:
-        varintSplitFull16Put_(p, len, v);
+        g_nev = 0;
+        varintSplitFull16Put_(p, len, ev_once(v));
         return len;
     }
     return 0;
@@ -326,6 +337,25 @@ static void full_tagged(uint64_t v) {
     if (gl != len || got != v) {
         FAILV("tagged.Get(n=len)", "roundtrip_mismatch", "v=%" PRIu64 " got=%" PRIu64 " ret=%d", v, got, gl);
     }
+    {
+        /* the available-byte count is an int32_t: any count >= the encoded length must decode the same way */
+        static const int32_t NS[] = {9, 10, 16, 127, 128, 255, 256, 257, 258, 260, 264, 265, 511, 512, 513, 1024, 4096, 32767, 32768, 65535, 65536, 65537, 65544, 1 << 20, (1 << 24) + 3, 0x7fffff00, 0x7ffffffe, 0x7fffffff};
+        for (size_t k = 0; k < sizeof NS / sizeof *NS; k++) {
+            for (int d = 0; d < 2; d++) {
+                int32_t n = d ? NS[k] - 9 + len : NS[k]; /* also counts whose low byte is just below the length */
+                if (n < len) {
+                    continue;
+                }
+                got = ~v;
+                gl = (int)varintTaggedGet(dst, n, &got);
+                if (gl != len || got != v) {
+                    FAILV("tagged.Get(n>=len)", "roundtrip_mismatch", "v=%" PRIu64 " available=%d got=%" PRIu64 " ret=%d", v, n, got, gl);
+                    break;
+                }
+            }
+        }
+        vh_count("calls", 2 * sizeof NS / sizeof *NS);
+    }
     if (varintTaggedGet64ReturnValue(dst) != v) {
         FAILV("tagged.Get64ReturnValue", "roundtrip_mismatch", "v=%" PRIu64 " got=%" PRIu64, v, varintTaggedGet64ReturnValue(dst));
     }
@@ -350,7 +380,8 @@ static void full_tagged(uint64_t v) {
                 if (form == 0) {
                     r = (int)varintTaggedPut64FixedWidth(dst, v, (varintWidth)w);
                 } else {
-                    varintTaggedPut64FixedWidthQuick_(dst, v, w);
+                    g_nev = 0;
+                    varintTaggedPut64FixedWidthQuick_(dst, ev_once(v), w);
                 }
                 const char *api = form ? "tagged.Put64FixedWidthQuick_" : "tagged.Put64FixedWidth";
                 if (r != w) {
@@ -551,7 +582,8 @@ static void full_csimple(uint64_t v) {
             memset(PB, bg, sizeof PB);                                                                             \
             uint8_t *dst = PB + 24;                                                                                \
             int len = 0;                                                                                           \
-            PUTF(dst, len, v);                                                                                     \
+            g_nev = 0;                                                                                             \
+            PUTF(dst, len, ev_once(v));                                                                                     \
             if (len != rl || !pb_clean(dst, len, bg)) {                                                            \
                 FAILV(api_f, "stray_write", "v=%" PRIu64 " len=%d want=%d buf=%s", v, len, rl, vh_hex(PB, sizeof PB)); \
             } else if (P_C04 && memcmp(dst, rev, (size_t)rl)) {                                                    \
@@ -735,6 +767,62 @@ static void signed_helpers(const u64vec *V) {
     }
 }
 
+/* ------------------------------------------------------------------ wide external (9..16 byte) forms
+ * varintExternalPutFixedWidthBig / varintBigExternalGet store a 128-bit value in 1..16 bytes, little-endian. */
+static void wide_external(const u64vec *V) {
+    if (!vh_section_begin("external_wide")) {
+        return;
+    }
+    /* reduced alphabet: every value of V whose index is a multiple of the stride, plus the extremes */
+    uint64_t R[160];
+    size_t nr = 0, stride = V->n / 120 + 1;
+    for (size_t i = 0; i < V->n && nr < 150; i += stride) {
+        R[nr++] = V->v[i];
+    }
+    R[nr++] = 0;
+    R[nr++] = 1;
+    R[nr++] = UINT64_MAX;
+    R[nr++] = 1ULL << 63;
+    for (size_t hi = 0; hi < nr; hi++) {
+        if (!vh_case()) {
+            continue;
+        }
+        for (size_t lo = 0; lo < nr; lo++) {
+            __uint128_t v = ((__uint128_t)R[hi] << 64) | R[lo];
+            int need = R[hi] ? 8 + ref_bytes_of(R[hi]) : (R[lo] ? ref_bytes_of(R[lo]) : 1);
+            for (int w = need; w <= 16; w++) {
+                for (int bg = 0; bg < 2; bg++) {
+                    uint8_t *g = vh_gb_get(0, (size_t)w, bg ? 0xee : 0x11);
+                    __uint128_t got = 0;
+                    if (SB_ENTER()) {
+                        varintExternalPutFixedWidthBig(g, v, (varintWidth)w);
+                        got = varintBigExternalGet(g, (varintWidth)w);
+                        SB_LEAVE();
+                    } else {
+                        vh_fail("externalLE.PutFixedWidthBig", vh_fault_name(), "untagged", "hi=%" PRIu64 " lo=%" PRIu64 " w=%d %s", R[hi], R[lo], w, vh_fault_msg);
+                        continue;
+                    }
+                    int okbytes = 1;
+                    for (int k = 0; k < w; k++) {
+                        okbytes &= g[k] == (uint8_t)(v >> (8 * k));
+                    }
+                    if (!okbytes || !vh_gb_canary_ok(0)) {
+                        vh_fail("externalLE.PutFixedWidthBig", okbytes ? "stray_write" : "bytes_differ_from_reference", "untagged", "hi=%" PRIu64 " lo=%" PRIu64 " w=%d canary_ok=%d", R[hi], R[lo], w, vh_gb_canary_ok(0));
+                    }
+                    if (got != v) {
+                        vh_fail("externalLE.BigGet", "roundtrip_mismatch", "untagged", "hi=%" PRIu64 " lo=%" PRIu64 " w=%d got hi=%" PRIu64 " lo=%" PRIu64, R[hi], R[lo], w, (uint64_t)(got >> 64), (uint64_t)got);
+                    }
+                    vh_count("calls", 2);
+                }
+            }
+        }
+        vh_count("cases", nr);
+        char ck[64];
+        snprintf(ck, sizeof ck, "externalWide/hibytes%d", R[hi] ? ref_bytes_of(R[hi]) : 0);
+        vh_class(ck, "hi=%" PRIu64, R[hi]);
+    }
+}
+
 /* ------------------------------------------------------------------ C01 / C04 driver */
 static uint64_t prefix_bits(void) {
     const char *e = getenv("VERIF_PREFIX_BITS");
@@ -844,8 +932,176 @@ static void run_c01_c04(void) {
     }
     if (P_C01) {
         signed_helpers(&V);
+        wide_external(&V);
     }
     if (P_C04) {
+        /* the bit writer / reader themselves (exposed for advanced use): every start position 0..71 x width 1..64 x
+         * value alphabet against an MSB-first bit-array model */
+        if (vh_section_begin("bit_io")) {
+            for (size_t start = 0; start < 72; start++) {
+                for (size_t nb = 1; nb <= 64; nb++) {
+                    if (!vh_case()) {
+                        continue;
+                    }
+                    uint64_t mask = nb == 64 ? UINT64_MAX : ((1ULL << nb) - 1);
+                    uint64_t vals[8] = {0, 1, mask, mask >> 1, 1ULL << (nb - 1), 0x5555555555555555ULL & mask, 0xAAAAAAAAAAAAAAAAULL & mask, 0x0123456789abcdefULL & mask};
+                    for (int vi = 0; vi < 8; vi++) {
+                        uint8_t buf[40], model[40];
+                        memset(buf, 0xff, sizeof buf);
+                        memset(model, 0, sizeof model);
+                        varintBitWriter w;
+                        varintBitWriterInit(&w, buf, 32);
+                        /* `start` leading bits: alternating pattern written in chunks */
+                        size_t left = start, pos = 0;
+                        while (left) {
+                            size_t c = left > 13 ? 13 : left;
+                            varintBitWriterWrite(&w, 0x1555 & ((1ULL << c) - 1), c);
+                            for (size_t k = 0; k < c; k++) {
+                                if (((0x1555 & ((1ULL << c) - 1)) >> (c - 1 - k)) & 1) {
+                                    model[pos / 8] |= (uint8_t)(1u << (7 - pos % 8));
+                                }
+                                pos++;
+                            }
+                            left -= c;
+                        }
+                        varintBitWriterWrite(&w, vals[vi], nb);
+                        for (size_t k = 0; k < nb; k++) {
+                            if ((vals[vi] >> (nb - 1 - k)) & 1) {
+                                model[pos / 8] |= (uint8_t)(1u << (7 - pos % 8));
+                            }
+                            pos++;
+                        }
+                        size_t bytes = varintBitWriterBytes(&w);
+                        int bad = bytes != (pos + 7) / 8 || w.bitPos != pos || memcmp(buf, model, 32) != 0;
+                        for (int k = 32; k < 40; k++) {
+                            bad |= buf[k] != 0xff; /* Init clears exactly `capacity` bytes */
+                        }
+                        varintBitReader r;
+                        varintBitReaderInit(&r, buf, pos);
+                        left = start;
+                        while (left) {
+                            size_t c = left > 11 ? 11 : left;
+                            (void)varintBitReaderRead(&r, c);
+                            left -= c;
+                        }
+                        int hm1 = varintBitReaderHasMore(&r, nb), hm2 = varintBitReaderHasMore(&r, nb + 1);
+                        uint64_t got = varintBitReaderRead(&r, nb);
+                        int hm3 = varintBitReaderHasMore(&r, 1);
+                        uint64_t past = varintBitReaderRead(&r, 5); /* beyond totalBits: reads as 0 */
+                        if (bad || got != vals[vi] || !hm1 || hm2 || hm3 || past != 0) {
+                            vh_fail("elias.BitWriter/BitReader", bad ? "bytes_differ_from_reference" : "roundtrip_mismatch", "untagged", "start bit %zu width %zu value 0x%" PRIx64 ": bytes=%zu bitPos=%zu read=0x%" PRIx64 " hasMore %d/%d/%d past=%" PRIu64, start,
+                                    nb, vals[vi], bytes, w.bitPos, got, hm1, hm2, hm3, past);
+                        }
+                        vh_count("calls", 8);
+                    }
+                    vh_count("cases", 1);
+                }
+            }
+            vh_class("bit_io", "72 start positions x 64 widths x 8 values");
+        }
+        /* the same at far stream positions: the writer / reader structs are public, so a caller may continue a stream
+         * of more than 2^31 / 2^32 bits or 2^32 bytes. Lazily committed 4 GiB stream; oracle: window vs model and
+         * mincore() page-access scan over the whole stream */
+        if (vh_section_begin("bit_io_far")) {
+            size_t maplen = ((size_t)4 << 30) + (1 << 16);
+            uint8_t *map = mmap(NULL, maplen, PROT_READ | PROT_WRITE, MAP_PRIVATE | MAP_ANONYMOUS | MAP_NORESERVE, -1, 0);
+            unsigned char *vec = malloc(maplen / 4096);
+            vh_flag("bit_io_far_mapped", map != MAP_FAILED);
+            if (map != MAP_FAILED) {
+                madvise(map, maplen, MADV_NOHUGEPAGE);
+                static const int EXPS[5] = {31, 32, 33, 34, 35};
+                static const long DELTAS[8] = {-130, -70, -9, -1, 0, 1, 7, 63};
+                static const size_t WID[5] = {1, 8, 33, 63, 64};
+                for (int ei = 0; ei < 5; ei++) {
+                    for (int di = 0; di < 8; di++) {
+                        for (int wi = 0; wi < 5; wi++) {
+                            if (!vh_case()) {
+                                continue;
+                            }
+                            size_t pos = ((size_t)1 << EXPS[ei]) + (size_t)DELTAS[di], nb = WID[wi];
+                            uint64_t mask = nb == 64 ? UINT64_MAX : ((1ULL << nb) - 1);
+                            for (int mode = 0; mode < 4; mode++) { /* 0 Write, 1 Read, 2 gamma encode+decode, 3 delta encode+decode */
+                                uint64_t v = mode < 2 ? (0xA5A5A5A5A5A5A5A5ULL & mask) | 1 : (mask >> 1) | 1;
+                                char cbits[200];
+                                size_t bits = mode < 2 ? nb : (mode == 2 ? (size_t)ref_elias_gamma_bits(v, cbits) : (size_t)ref_elias_delta_bits(v, cbits));
+                                size_t wlo = pos / 8 - 8, whi = (pos + bits + 7) / 8 + 8, wl = whi - wlo;
+                                uint8_t model[64];
+                                if (wl > sizeof model || whi > maplen) {
+                                    continue;
+                                }
+                                memset(model, 0, sizeof model);
+                                /* model bits, MSB first, relative to the window start */
+                                for (size_t k = 0; k < bits; k++) {
+                                    int bit = mode < 2 ? (int)((v >> (nb - 1 - k)) & 1) : cbits[k] != 0;
+                                    size_t q = pos - wlo * 8 + k;
+                                    if (bit) {
+                                        model[q / 8] |= (uint8_t)(1u << (7 - q % 8));
+                                    }
+                                }
+                                memset(map + wlo, 0, wl);
+                                if (mode == 1) {
+                                    memcpy(map + wlo, model, wl);
+                                }
+                                uint64_t got = 0, ret = 0;
+                                varintBitWriter w = {map, pos, maplen};
+                                varintBitReader r = {map, pos, pos + bits};
+                                if (SB_ENTER()) {
+                                    if (mode == 0) {
+                                        varintBitWriterWrite(&w, v, nb);
+                                        got = varintBitReaderRead(&r, nb);
+                                    } else if (mode == 1) {
+                                        got = varintBitReaderRead(&r, nb);
+                                    } else if (mode == 2) {
+                                        ret = varintEliasGammaEncode(&w, v);
+                                        got = varintEliasGammaDecode(&r);
+                                    } else {
+                                        ret = varintEliasDeltaEncode(&w, v);
+                                        got = varintEliasDeltaDecode(&r);
+                                    }
+                                    SB_LEAVE();
+                                } else {
+                                    vh_fail("elias.BitWriter/BitReader", vh_fault_name(), "untagged", "position 2^%d%+ld width %zu mode %d: %s", EXPS[ei], DELTAS[di], nb, mode, vh_fault_msg);
+                                }
+                                int bad = memcmp(map + wlo, model, wl) != 0 || got != v || (mode != 1 && w.bitPos != pos + bits) || r.bitPos != pos + bits || (mode >= 2 && ret != bits);
+                                if (bad) {
+                                    static const char *MN[4] = {"Write then Read", "Read of independently written bits", "gamma Encode/Decode", "delta Encode/Decode"};
+                                    vh_fail(mode < 2 ? "elias.BitWriter/BitReader" : mode == 2 ? "elias.gamma" : "elias.delta", memcmp(map + wlo, model, wl) ? "bytes_differ_from_reference" : "roundtrip_mismatch", "untagged",
+                                            "%s at stream bit position 2^%d%+ld, %zu bits, value 0x%" PRIx64 ": read back 0x%" PRIx64 ", writer bitPos %zu reader bitPos %zu (want %zu), stream bytes %s model %s", MN[mode], EXPS[ei], DELTAS[di], bits, v,
+                                            got, w.bitPos, r.bitPos, pos + bits, vh_hex(map + wlo, wl), vh_hex(model, wl));
+                                }
+                                if (mincore(map, maplen, vec) == 0) {
+                                    size_t plo = wlo / 4096, phi = (whi - 1) / 4096, npages = maplen / 4096;
+                                    for (size_t pg = 0; pg < npages; pg++) {
+                                        if (pg + 8 <= npages && ((uintptr_t)(vec + pg) & 7) == 0) {
+                                            uint64_t eight;
+                                            memcpy(&eight, vec + pg, 8);
+                                            if ((eight & 0x0101010101010101ULL) == 0) {
+                                                pg += 7;
+                                                continue;
+                                            }
+                                        }
+                                        if (!(vec[pg] & 1)) {
+                                            continue;
+                                        }
+                                        if (pg < plo || pg > phi) {
+                                            vh_fail("elias.BitWriter/BitReader", "touches_foreign_bytes", "untagged", "mode %d at stream bit position 2^%d%+ld: the page at stream byte %zu was accessed", mode, EXPS[ei], DELTAS[di], pg * 4096);
+                                        }
+                                        madvise(map + pg * 4096, 4096, MADV_DONTNEED);
+                                    }
+                                }
+                                vh_count("calls", 2);
+                            }
+                            vh_count("cases", 1);
+                        }
+                    }
+                    char ck[48];
+                    snprintf(ck, sizeof ck, "bit_io_far/2^%d", EXPS[ei]);
+                    vh_class(ck, "8 deltas x 5 widths x 4 modes");
+                }
+                munmap(map, maplen);
+            }
+            free(vec);
+        }
         /* Elias gamma/delta single codes via the bit writer, zig-zag */
         if (vh_section_begin("elias_zigzag")) {
             for (size_t i = 0; i < V.n + 65536; i++) {
@@ -1021,6 +1277,42 @@ static void run_c05(void) {
             vh_class(ck, "a=%" PRIu64 " x all %zu values", R.v[i], R.n);
         }
         vh_flag("all_pairs_reduced_alphabet", complete);
+    }
+    /* every producer of a tagged encoding yields the same bytes for the same value: Put64, Put64FixedWidth at the
+     * minimal width, the Quick macro (its value operand is an expression evaluated once) and PutVarint32; all values of
+     * the 1-, 2- and 3-byte classes (0..67900) and the boundary alphabet beyond */
+    if (vh_section_begin("producers_agree")) {
+        u64vec B = {0};
+        alpha_boundary_windows(&B, 1);
+        const uint64_t DENSE = 67900;
+        for (uint64_t i = 0; i < DENSE + B.n; i++) {
+            if (!vh_case()) {
+                continue;
+            }
+            uint64_t v = i < DENSE ? i : B.v[i - DENSE];
+            uint8_t e0[16], e1[16], e2[16], e3[16];
+            memset(e0, 0xa5, 16);
+            memset(e1, 0xa5, 16);
+            memset(e2, 0xa5, 16);
+            memset(e3, 0xa5, 16);
+            int l0 = (int)varintTaggedPut64(e0, v);
+            int l1 = (int)varintTaggedPut64FixedWidth(e1, v, (varintWidth)l0);
+            g_nev = 0;
+            varintTaggedPut64FixedWidthQuick_(e2, ev_once(v), l0);
+            int same = l1 == l0 && !memcmp(e0, e1, 16) && !memcmp(e0, e2, 16);
+            if (v <= UINT32_MAX) {
+                int l3 = (int)varintTaggedPutVarint32(e3, (uint32_t)v);
+                same = same && l3 == l0 && !memcmp(e0, e3, 16);
+            }
+            if (!same) {
+                vh_fail("tagged.producers", "equal_values_different_bytes", "untagged", "v=%" PRIu64 ": Put64 %s, Put64FixedWidth %s, Put64FixedWidthQuick_(expression operand) %s, PutVarint32 %s", v, vh_hex(e0, 10), vh_hex(e1, 10),
+                        vh_hex(e2, 10), v <= UINT32_MAX ? vh_hex(e3, 10) : "-");
+            }
+            vh_count("calls", 4);
+            vh_count("cases", 1);
+        }
+        free(B.v);
+        vh_class("producers_agree", "0..67899 and the boundary alphabet");
     }
     /* every producer of a tagged encoding must yield THE encoding of the value ("equal values have identical bytes"):
      * the in-place adders store their result as a tagged varint too */
